@@ -16,6 +16,14 @@ Theorem C04_routes_exact :
 Proof. exact vsrs_exact. Qed.
 Print Assumptions C04_routes_exact.
 
+(* For every route list (unbounded): a VirtualServerRoute is attached to a VirtualServer at most once,
+   however many routes of the VirtualServer refer to it (a second attachment would render its upstreams
+   and locations twice, F12). *)
+Theorem C04_route_attached_once :
+  forall rs v routes, NoDup (map fst (fst (build_vsrs_k rs v [] routes))).
+Proof. exact vsrs_attached_once. Qed.
+Print Assumptions C04_route_attached_once.
+
 (* the per-reference check: host equal to the VirtualServer's; under a regex/exact route exactly one
    subroute with the identical path; under a prefix route every subroute below the prefix *)
 Theorem C04_reference_check_meaning :
